@@ -152,6 +152,7 @@ type result struct {
 	signals   []string
 	ops       []fsOp
 	faulted   *fsOp
+	faultedOn []string // base names of the files whose remove / close was made to fail
 	panicText string
 	leftTmp   []string
 	leftUp    []string
@@ -230,6 +231,9 @@ func execute(b base, d dirs, stop int, cx *mc.Ctx, withProbe bool) result {
 		switch cx.Choose(n, vrt.Env, op+" "+o.Name) {
 		case 1:
 			res.faulted = &o
+			if op == "remove" || op == "close" {
+				res.faultedOn = append(res.faultedOn, filepath.Base(name))
+			}
 			return errInjected, false
 		case 2:
 			res.faulted = &fsOp{op + "(short)", o.Name}
@@ -389,12 +393,25 @@ func judge(b base, k kase, res result, ref string, report func(sig, text string)
 		report("body-shorter-than-acknowledged", desc+fmt.Sprintf("\nphase 2 saw %d bytes, %d were acknowledged", len(res.bodySeen), res.acked))
 	}
 	// temporary files
-	ownRemoval := res.faulted != nil && (strings.HasPrefix(res.faulted.Op, "remove") || strings.HasPrefix(res.faulted.Op, "close"))
-	if len(res.leftTmp) > 0 && !ownRemoval {
+	// a file whose own remove (or close) was made to fail may stay; every other temporary file must be gone
+	others := func(left []string) []string {
+		var out []string
+		for _, f := range left {
+			own := false
+			for _, g := range res.faultedOn {
+				own = own || f == g
+			}
+			if !own {
+				out = append(out, f)
+			}
+		}
+		return out
+	}
+	if left := others(res.leftTmp); len(left) > 0 {
 		report("temp-file-left:spill:"+faultClass(res.faulted, k), desc+fmt.Sprintf("\nfiles left in the temp directory after Close: %v", res.leftTmp))
 	}
-	if len(res.leftUp) > 0 && !b.retains() && !ownRemoval {
-		report("temp-file-left:upload:"+faultClass(res.faulted, k), desc+fmt.Sprintf("\nfiles left in the upload directory after Close (SecUploadKeepFiles %s, logged match %v): %v", b.Keep, b.Logged, res.leftUp))
+	if left := others(res.leftUp); len(left) > 0 && !b.retains() {
+		report("temp-file-left:upload:"+faultClass(res.faulted, k), desc+fmt.Sprintf("\nfiles left in the upload directory after Close (SecUploadKeepFiles %s, logged match %v): %v; only %v had a failing remove / close", b.Keep, b.Logged, res.leftUp, res.faultedOn))
 	}
 	if res.fdDelta > 0 {
 		report("descriptor-leak:"+faultClass(res.faulted, k), desc+fmt.Sprintf("\n%d file descriptors still open after Close", res.fdDelta))
